@@ -28,6 +28,7 @@ import (
 //     after the reply;
 //   - (scenario option "fullduplex") a server in full-duplex mode, where that rule is off;
 //   - (scenario option "srvdl") a request context that already has a far deadline of the server's own;
+//   - (scenario option "noflush") a ResponseWriter without Flush: the reply leaves when the handler returns;
 //   - cancellation closing the connection; the server noticing a closed
 //     connection through failing body reads, and through its background read
 //     (which cancels the request context) only once the body has hit EOF;
@@ -48,11 +49,21 @@ type memTransport struct {
 	// srvDeadline: the request context the handlers get already carries a (far) deadline of the server's own,
 	// as behind http.TimeoutHandler or a middleware that bounds every request
 	srvDeadline bool
+	// noFlush: the handlers see a ResponseWriter that has neither Flush nor Unwrap (a middleware's wrapper,
+	// http.TimeoutHandler's writer): nothing leaves the server before the handler has returned
+	noFlush bool
 }
 
-func newMemTransport(h http.Handler, giveUp, fullDuplex, srvDeadline bool) http.RoundTripper {
-	return &memTransport{h: h, giveUp: giveUp, fullDuplex: fullDuplex, srvDeadline: srvDeadline}
+func newMemTransport(h http.Handler, giveUp, fullDuplex, srvDeadline, noFlush bool) http.RoundTripper {
+	return &memTransport{h: h, giveUp: giveUp, fullDuplex: fullDuplex, srvDeadline: srvDeadline, noFlush: noFlush}
 }
+
+// plainWriter hides every optional interface of the writer it wraps.
+type plainWriter struct{ w http.ResponseWriter }
+
+func (p plainWriter) Header() http.Header         { return p.w.Header() }
+func (p plainWriter) Write(b []byte) (int, error) { return p.w.Write(b) }
+func (p plainWriter) WriteHeader(code int)        { p.w.WriteHeader(code) }
 
 // farDeadlineCtx is a request context that has a deadline far beyond anything the caller asks for (the
 // server's own bound on a request never passes within a scenario).
@@ -141,7 +152,11 @@ func (t *memTransport) RoundTrip(req *http.Request) (*http.Response, error) {
 	sreq.Body = rb
 	w := &memRespWriter{c: c, rb: rb, hdr: http.Header{}}
 	mc.GoNamed("mem-server", func() {
-		t.h.ServeHTTP(w, sreq)
+		if t.noFlush {
+			t.h.ServeHTTP(plainWriter{w}, sreq)
+		} else {
+			t.h.ServeHTTP(w, sreq)
+		}
 		w.finishRequest()
 		scancel()
 		mc.Close(c.srvDone)
